@@ -63,6 +63,8 @@ type igen struct {
 	s     *ast.Schema
 	vars  []string
 	vals  map[string]any
+	// overlap: selections of one object repeated through fragments
+	overlap bool
 }
 
 func (g *igen) sel(tn string, depth int) string {
@@ -131,6 +133,17 @@ func (g *igen) sel(tn string, depth int) string {
 
 func (g *igen) selOrFrag(tn string, depth int) string {
 	body := g.sel(tn, depth)
+	if g.overlap && g.r.Intn(4) == 0 {
+		// the same type selected twice over: directly and again through a fragment whose selection overlaps the
+		// direct one (deeper or shallower below the same keys); the answer is that of the merged selection
+		name := fmt.Sprintf("OV%d", len(g.frags))
+		g.frags = append(g.frags, "fragment "+name+" on "+tn+" "+g.sel(tn, depth+1))
+		inner := strings.TrimSuffix(strings.TrimPrefix(body, "{ "), " }")
+		if g.r.Intn(2) == 0 {
+			return "{ " + inner + " ..." + name + " }"
+		}
+		return "{ ..." + name + " " + inner + " }"
+	}
 	switch g.r.Intn(8) {
 	case 0:
 		return "{ ... on " + tn + " " + body + " }"
@@ -153,7 +166,11 @@ func typeNames(s *ast.Schema) []string {
 }
 
 func genIntrospectionOp(r *rand.Rand, s *ast.Schema) *gen.Op {
-	g := &igen{r: r, s: s, vals: map[string]any{}}
+	return genIntrospectionOpWith(r, s, false)
+}
+
+func genIntrospectionOpWith(r *rand.Rand, s *ast.Schema, overlap bool) *gen.Op {
+	g := &igen{r: r, s: s, vals: map[string]any{}, overlap: overlap}
 	var roots []string
 	n := 1 + r.Intn(2)
 	names := typeNames(s)
@@ -234,6 +251,36 @@ func (p c16) Gen(c *run.Ctx, idx int) (json.RawMessage, error) {
 	default:
 		cs.Kind = "generated"
 		op := genIntrospectionOp(r, cu.mono)
+		if k%6 == 5 {
+			// one list selected twice, shallow and deep below the same keys, in both orders, directly and through a fragment
+			tn := pick(r, typeNames(cu.mono))
+			shallow := pick(r, []string{"fields { name type { kind name } }", "fields { name args { name type { kind } } type { kind } }", "inputFields { name type { kind name } }", "interfaces { name }", "possibleTypes { name }"})
+			deep := map[string]string{
+				"fields { name type { kind name } }":                        "fields { name type { kind name ofType { kind name ofType { kind name ofType { kind name } } } } }",
+				"fields { name args { name type { kind } } type { kind } }": "fields { name args { name defaultValue type { kind name ofType { kind name ofType { kind name } } } } type { kind name ofType { name } } }",
+				"inputFields { name type { kind name } }":                   "inputFields { name defaultValue type { kind name ofType { kind name ofType { kind name } } } }",
+				"interfaces { name }":                                       "interfaces { name kind fields { name } }",
+				"possibleTypes { name }":                                    "possibleTypes { name kind interfaces { name } }",
+			}[shallow]
+			a, b := shallow, deep
+			if r.Intn(2) == 0 {
+				a, b = deep, shallow
+			}
+			q := fmt.Sprintf("{ __type(name: %q) { name %s ...OV } }\nfragment OV on __Type { %s }", tn, a, b)
+			if r.Intn(3) == 0 {
+				q = fmt.Sprintf("{ __type(name: %q) { name %s %s } }", tn, a, b)
+			}
+			op = &gen.Op{Query: q}
+		} else if k%3 == 2 {
+			// overlapping selections; pairs that cannot be merged (same key, other arguments) are drawn again
+			for try := 0; try < 12; try++ {
+				cand := genIntrospectionOpWith(r, cu.mono, true)
+				if doc, e := gqlparser.LoadQuery(cu.mono, cand.Query); e == nil && fieldsCanMerge(doc) {
+					op = cand
+					break
+				}
+			}
+		}
 		if _, e := gqlparser.LoadQuery(cu.mono, op.Query); e != nil {
 			return nil, nil
 		}
